@@ -26,6 +26,7 @@ import (
 	"flag"
 	"fmt"
 	"sort"
+	"strings"
 	"sync"
 	"time"
 
@@ -111,6 +112,7 @@ func main() {
 		asymTab[k] = v
 	}
 	sort.Strings(order)
+	installHook()
 	ch := make(chan string)
 	var wg sync.WaitGroup
 	for i := 0; i < *workers; i++ {
@@ -125,16 +127,21 @@ func main() {
 				var err error
 				for try := 0; try < 3; try++ { // socket trouble: fresh pair
 					if g[0].Peer != "" {
-						err = runPeer(g[0])
+						err = runPeer(g[0], try == 2)
 					} else {
-						err = runGroup(g)
+						err = runGroup(g, false)
 					}
 					if err == nil {
 						break
 					}
-					time.Sleep(200 * time.Millisecond)
+					time.Sleep(time.Duration(try+1) * 700 * time.Millisecond)
 				}
-				if err != nil {
+				if oe, ok := err.(openError); ok && g[0].Peer == "" {
+					// a valid configuration whose channel cannot be opened three times in a row (fresh sockets each time):
+					// the OPN exchange itself does not round-trip
+					violation(id(g[0], "opn", "gopcua"), fmt.Sprintf("open/%s/%s/ck=%s/sk=%s", g[0].Pol, g[0].Mode, g[0].CKey, g[0].SKey), "channel-cannot-be-opened",
+						fmt.Sprintf("%s/%s client key %s server key %s chunk size %d: OpenSecureChannel fails: %v", g[0].Pol, g[0].Mode, g[0].CKey, g[0].SKey, g[0].Cs, oe.err))
+				} else if err != nil {
 					for _, r := range g {
 						vfgo.Inconclusive(id(r, "both", ""), "group could not be driven: "+err.Error())
 					}
@@ -181,11 +188,58 @@ func id(r row, dir, via string) caseID {
 type capture struct {
 	mu sync.Mutex
 	fr map[string][][]byte
+	ev []map[string]any // trace events (C07 code -> spec), in causal order: a chunk passes the proxy before the peer reads it
+}
+
+func (c *capture) event(e map[string]any) {
+	c.mu.Lock()
+	c.ev = append(c.ev, e)
+	c.mu.Unlock()
+}
+
+// chanCap maps a channel to the capture of its pair and the direction it RECEIVES (hook recv.chunk).
+var chanCap sync.Map // *uasc.SecureChannel -> recvSide
+
+type recvSide struct {
+	cap *capture
+	dir string
+}
+
+func installHook() {
+	uasc.VerifHook.Store(func(point string, s *uasc.SecureChannel, kv ...any) {
+		if point != "recv.chunk" {
+			return
+		}
+		v, ok := chanCap.Load(s)
+		if !ok {
+			return
+		}
+		rs := v.(recvSide)
+		e := map[string]any{"ev": "recv", "dir": rs.dir}
+		for i := 0; i+1 < len(kv); i += 2 {
+			switch kv[i] {
+			case "type":
+				e["type"] = fmt.Sprint(kv[i+1])
+			case "kind":
+				if b, ok := kv[i+1].(byte); ok {
+					e["kind"] = string([]byte{b})
+				}
+			case "len":
+				e["body"] = kv[i+1]
+			}
+		}
+		if e["type"] == "MSG" {
+			rs.cap.event(e)
+		}
+	})
 }
 
 func (c *capture) tap(f chanpair.Frame) [][]byte {
 	c.mu.Lock()
 	c.fr[f.Dir] = append(c.fr[f.Dir], append([]byte(nil), f.Data...))
+	if f.Type() == "MSG" && len(f.Data) >= 8 {
+		c.ev = append(c.ev, map[string]any{"ev": "send", "dir": f.Dir, "kind": string(f.Data[3:4]), "total": len(f.Data), "msgSize": int(binary.LittleEndian.Uint32(f.Data[4:]))})
+	}
 	c.mu.Unlock()
 	return chanpair.Pass(f)
 }
@@ -261,19 +315,53 @@ type side struct {
 	keys refcodec.Keys // keys protecting what this side SENDS
 }
 
-func runGroup(g []row) error {
+func runGroup(g []row, slow bool) error {
+	// slow: second attempt of rows whose first attempt ran into a time-out (loaded machine): generous slack
+	reqTO, ctxTO, waitTO := 6*time.Second, 8*time.Second, 5*time.Second
+	if slow {
+		reqTO, ctxTO, waitTO = 45*time.Second, 50*time.Second, 45*time.Second
+	}
+	var again []row
 	bases()
 	r0 := g[0]
 	cap := &capture{fr: map[string][][]byte{}}
 	ack := func() *uacp.Acknowledge {
-		return &uacp.Acknowledge{ReceiveBufSize: uint32(r0.Cs), SendBufSize: uint32(r0.Cs), MaxChunkCount: 8192, MaxMessageSize: 1 << 28}
+		return &uacp.Acknowledge{ReceiveBufSize: uint32(r0.Cs) + 4096, SendBufSize: uint32(r0.Cs), MaxChunkCount: 8192, MaxMessageSize: 1 << 28}
 	}
 	p, err := chanpair.Open(chanpair.Opts{Policy: r0.Pol, Mode: r0.Mode, ClientKey: r0.CKey, ServerKey: r0.SKey,
-		ClientACK: ack(), ServerACK: ack(), Tap: cap.tap, RequestTimeout: 6 * time.Second})
+		ClientACK: ack(), ServerACK: ack(), Tap: cap.tap, RequestTimeout: reqTO})
 	if err != nil {
-		return err
+		return openError{err}
 	}
 	defer p.Close()
+	chanCap.Store(p.Server, recvSide{cap, "c2s"})
+	chanCap.Store(p.Client, recvSide{cap, "s2c"})
+	defer chanCap.Delete(p.Server)
+	defer chanCap.Delete(p.Client)
+	var trace []map[string]any
+	// message brackets the events of one message; only events of its direction belong to it
+	begin := func(r row, dir string) int {
+		cap.mu.Lock()
+		defer cap.mu.Unlock()
+		return len(cap.ev)
+	}
+	end := func(r row, dir string, from int, same bool) {
+		cap.mu.Lock()
+		evs := append([]map[string]any(nil), cap.ev[from:]...)
+		cap.mu.Unlock()
+		trace = append(trace, map[string]any{"ev": "msg", "pol": r.Pol, "mode": r.Mode, "cs": r.Cs, "n": r.N, "dir": dir})
+		for _, e := range evs {
+			if e["dir"] == dir {
+				trace = append(trace, e)
+			}
+		}
+		trace = append(trace, map[string]any{"ev": "deliver", "same": same, "dir": dir})
+	}
+	defer func() {
+		if *prop == "C07" && len(trace) > 0 {
+			vfgo.OK(id(r0, "trace", "gopcua"), "", map[string]any{"trace": trace})
+		}
+	}()
 
 	sl := &srvLoop{}
 	go sl.run(p)
@@ -365,13 +453,14 @@ func runGroup(g []row) error {
 			}}
 			setWant(w)
 			mark := cap.mark("c2s")
-			ctx, cancel := context.WithTimeout(context.Background(), 8*time.Second)
+			ev0 := begin(r, "c2s")
+			ctx, cancel := context.WithTimeout(context.Background(), ctxTO)
 			serr := p.Client.SendRequest(ctx, req, nil, func(ua.Response) error { return nil })
 			cancel()
 			var got *uasc.MessageBody
 			select {
 			case got = <-w.got:
-			case <-time.After(5 * time.Second):
+			case <-time.After(waitTO):
 			}
 			setWant(nil)
 			frames := msgFrames(cap.since("c2s", mark))
@@ -389,6 +478,11 @@ func runGroup(g []row) error {
 			if serr != nil && derr == "" {
 				derr = "SendRequest: " + serr.Error()
 			}
+			if !slow && timeoutish(derr) {
+				again = append(again, r)
+				continue
+			}
+			end(r, "c2s", ev0, derr == "" && bytes.Equal(delivered, payload(L, salt)))
 			judge(r, "c2s", cls("c2s"), frames, payload(L, salt), delivered, derr, haveKeys, sp, kc)
 			if *prop == "C08" && haveKeys {
 				doInject(r, p, sl, "c2s", cls("c2s-ref"), frames, sp, kc, payload(L, salt))
@@ -406,9 +500,10 @@ func runGroup(g []row) error {
 			}}
 			setWant(w)
 			mark := cap.mark("s2c")
+			ev0 := begin(r, "s2c")
 			var delivered []byte
 			derr := ""
-			ctx, cancel := context.WithTimeout(context.Background(), 8*time.Second)
+			ctx, cancel := context.WithTimeout(context.Background(), ctxTO)
 			serr := p.Client.SendRequest(ctx, chanpair.ReadReq(0, 2258), nil, func(resp ua.Response) error {
 				if q, ok := resp.(*ua.ReadResponse); ok && len(q.Results) == 1 && q.Results[0].Value != nil {
 					delivered, _ = q.Results[0].Value.Value().([]byte)
@@ -423,10 +518,30 @@ func runGroup(g []row) error {
 				derr = "client channel: " + serr.Error()
 			}
 			frames := msgFrames(cap.since("s2c", mark))
+			if !slow && timeoutish(derr) {
+				again = append(again, r)
+				continue
+			}
+			end(r, "s2c", ev0, derr == "" && bytes.Equal(delivered, payload(L, salt)))
 			judge(r, "s2c", cls("s2c"), frames, payload(L, salt), delivered, derr, haveKeys, sp, ks)
 			if *prop == "C08" && haveKeys {
 				doInject(r, p, sl, "s2c", cls("s2c-ref"), frames, sp, ks, payload(L, salt))
 			}
+		}
+	}
+	if *prop == "C08" && haveKeys && !slow && !tooMany(id(r0, "", "")) {
+		renewScenario(g, p, sl, cap, sp, ks)
+	}
+	for _, r := range again {
+		// a time-out on the first attempt is not a verdict: once more, alone, on a fresh pair, with generous slack
+		var err error
+		for try := 0; try < 2; try++ {
+			if err = runGroup([]row{r}, true); err == nil {
+				break
+			}
+		}
+		if err != nil {
+			vfgo.Inconclusive(id(r, "both", ""), "retry could not be driven: "+err.Error())
 		}
 	}
 	return nil
@@ -434,6 +549,10 @@ func runGroup(g []row) error {
 
 // srvLoop is the application on the server side of a pair: it hands every delivered
 // message to the current expectation and answers it as the expectation says.
+type openError struct{ err error }
+
+func (e openError) Error() string { return "open: " + e.err.Error() }
+
 type want struct {
 	got  chan *uasc.MessageBody
 	resp func(m *uasc.MessageBody) ua.Response
@@ -476,6 +595,10 @@ func (s *srvLoop) run(p *chanpair.Pair) {
 		default:
 		}
 	}
+}
+
+func timeoutish(derr string) bool {
+	return strings.Contains(derr, "timed out") || strings.Contains(derr, "deadline") || strings.Contains(derr, "delivered nothing") || strings.Contains(derr, "Timeout")
 }
 
 func msgFrames(fr [][]byte) [][]byte {
